@@ -158,3 +158,73 @@ Proof.
       rewrite <- (firstn_skipn (S (Z.to_nat j)) cells) at 2. rewrite concat_app, zlen_app.
       pose proof (zlen_nonneg (concat (skipn (S (Z.to_nat j)) cells))). lia.
 Qed.
+
+(* ---------- Table.keep_rows as reached from Python: the complete outcome ---------- *)
+(* Either the call succeeds — then the mask had one entry per row, no kept row referred to a
+   dropped or missing row (references in ANY direction: the table need not be sorted), the
+   returned array is the old-id -> new-id map and the table is the list model's result — or
+   it raises and the table is exactly as it was. *)
+Theorem py_keep_rows_spec d t keep :
+  WF d t ->
+  match py_keep_rows d t keep with
+  | (t', Ok m) =>
+      zlen keep = nrows t /\ m = keep_mask_to_id_map keep /\ WF d t' /\
+      abs t' = map (remap_row d m) (filter_mask keep (abs t)) /\
+      kept_refs_ok d (nrows t) m keep (abs t)
+  | (t', _) => t' = t
+  end.
+Proof.
+  intros W. unfold py_keep_rows.
+  destruct (zlen keep =? nrows t) eqn:L; simpl; [|reflexivity]. apply Z.eqb_eq in L.
+  destruct (keep_rows d t keep) as [[t' m]| | |] eqn:K; try reflexivity.
+  destruct (keep_rows_refines _ _ _ _ _ W L K) as (E & W' & A & Kok). auto.
+Qed.
+
+Theorem py_keep_rows_wrong_length d t keep :
+  zlen keep <> nrows t -> py_keep_rows d t keep = (t, Err PY_VALUE_ERROR).
+Proof.
+  intros H. unfold py_keep_rows. replace (zlen keep =? nrows t) with false; [reflexivity|].
+  symmetry. apply Z.eqb_neq. exact H.
+Qed.
+
+(* a dangling reference (kept row -> dropped / missing row) is always refused, table unchanged *)
+Theorem py_keep_rows_dangling d t keep :
+  WF d t -> zlen keep = nrows t ->
+  ~ kept_refs_ok d (nrows t) (keep_mask_to_id_map keep) keep (abs t) ->
+  exists c, py_keep_rows d t keep = (t, Err c).
+Proof.
+  intros W L B. destruct (keep_rows_dangling _ _ _ W L B) as [c K].
+  exists c. unfold py_keep_rows. rewrite (proj2 (Z.eqb_eq _ _) L). simpl. rewrite K. reflexivity.
+Qed.
+
+(* the ragged `parents` column of individuals, forward and backward references *)
+Example py_keep_rows_individuals_forward_ex :
+  let t := fold_left (fun t r => match add_row d_individuals t r with Ok t' => t' | _ => t end)
+            [ ([0], [[]; [2; 1]; [7]]); ([1], [[1]; []; []]); ([2], [[]; [0]; [8; 9]]); ([3], [[]; [-1; 2]; []]) ]
+            (init d_individuals 0) in
+  (* row 0 refers FORWARD to rows 2 and 1: dropping row 2 is refused and nothing changes *)
+  py_keep_rows d_individuals t [true; true; false; false] = (t, Err TSK_ERR_KEEP_ROWS_MAP_TO_DELETED) /\
+  (* dropping row 3 only: every reference is renumbered (here: unchanged ids) *)
+  (let '(t', st) := py_keep_rows d_individuals t [true; true; true; false] in (st, abs t'))
+  = (Ok [0; 1; 2; -1], [ ([0], [[]; [2; 1]; [7]]); ([1], [[1]; []; []]); ([2], [[]; [0]; [8; 9]]) ]) /\
+  (* dropping row 1 is refused (row 0 refers to it); dropping rows 0 and 1: 2 -> 0, 3 -> 1 fails
+     because row 2 refers back to the dropped row 0 *)
+  py_keep_rows d_individuals t [true; false; true; true] = (t, Err TSK_ERR_KEEP_ROWS_MAP_TO_DELETED) /\
+  py_keep_rows d_individuals t [false; false; true; true] = (t, Err TSK_ERR_KEEP_ROWS_MAP_TO_DELETED).
+Proof. repeat split; vm_compute; reflexivity. Qed.
+
+(* Table.truncate as reached from Python: list truncation, or ValueError and no change *)
+Theorem py_truncate_spec d t n :
+  WF d t ->
+  (0 <= n <= nrows t ->
+     exists t', py_truncate t n = (t', Ok tt) /\ WF d t' /\ abs t' = firstn (Z.to_nat n) (abs t)) /\
+  (n < 0 \/ nrows t < n -> py_truncate t n = (t, Err PY_VALUE_ERROR)).
+Proof.
+  intros W. unfold py_truncate. split; intros H.
+  - replace ((n <? 0) || (n >? nrows t)) with false
+      by (symmetry; apply orb_false_iff; split; [apply Z.ltb_ge | rewrite Z.gtb_ltb; apply Z.ltb_ge]; lia).
+    destruct (truncate_total d t n W H) as [t' T]. exists t'. unfold lift. rewrite T.
+    split; [reflexivity|]. apply (truncate_refines _ _ _ _ W T).
+  - replace ((n <? 0) || (n >? nrows t)) with true; [reflexivity|].
+    symmetry. apply orb_true_iff. destruct H; [left; apply Z.ltb_lt | right; apply Z.gtb_lt]; lia.
+Qed.
